@@ -278,7 +278,8 @@ pub fn compare_live_vs_fresh(w: &World, hdr: &Header, label: &str) -> Vec<(Strin
 pub struct C06Model {
     pub inner: C01Model,
     /// one-step bisimulation after a snapshot round with every operation of
-    /// the alphabet (thorough) or one per kind and target (quick)
+    /// the alphabet (thorough) or one ROA change, entitlement change,
+    /// suspension, re-activation and roll step per target (quick)
     pub all_probes: bool,
 }
 
@@ -392,8 +393,14 @@ impl Model for C06Model {
             let probes: Vec<Op> = if self.all_probes {
                 probes
             } else {
+                // (kept small: each probe costs two forked copies, a
+                // restart and the tasks of the operation)
                 let mut seen = std::collections::BTreeSet::new();
-                probes.into_iter().filter(|o| seen.insert(o.compact())).collect()
+                probes
+                    .into_iter()
+                    .filter(|o| matches!(o, Op::Roa { .. } | Op::Entitle { .. } | Op::Suspend { .. } | Op::Unsuspend { .. } | Op::RollInit { .. } | Op::RollActivate { .. }))
+                    .filter(|o| seen.insert(o.compact()))
+                    .collect()
             };
             let project = |w: &World, o: &OpOutcome| -> String {
                 let mut c = crate::fingerprint::canonical(w);
